@@ -345,7 +345,7 @@ M.contract('bridgepoint.prebuild.ActionPrebuilder.accept_StatementListNode', [('
            loops={0: Loop(inv={'walks-the-children': '_seq == node.children',
                                'chained-so-far': 'chain_so_far(node.children, _i)',
                                'complete-so-far': 'all(complete_statement_in_chain(b(node.children[j]), blk(self)) for j in range(0, _i))',
-                               'previous': 'prev is (None if _i == 0 else b(node.children[_i - 1]))',
+                               'previous': '_c0 is (None if _i == 0 else b(node.children[_i - 1]))',
                                'scopes': 'self.symtab.scopes == old(self.symtab.scopes)'})})
 M.spec('''
 def complete_statement_in_chain(s, blk):
@@ -374,7 +374,7 @@ M.contract('bridgepoint.prebuild.ActionPrebuilder.accept_NavigationListNode', [(
            modifies=NESTED + ['self.symtab.version'],
            loops={0: Loop(inv={'walks-the-children-backwards': 'len(_seq) == len(node.children) and all(_seq[j] is node.children[len(node.children) - 1 - j] for j in range(0, len(_seq)))',
                                'chained-so-far': 'rchain_so_far(node.children, _i)',
-                               'previous': 'same(prev, None if _i == 0 else node.children[len(node.children) - _i].built)',
+                               'previous': 'same(_c0, None if _i == 0 else node.children[len(node.children) - _i].built)',
                                'scopes': 'self.symtab.scopes == old(self.symtab.scopes)'})})
 
 # ---- body, variable reads
@@ -430,7 +430,7 @@ M.contract('bridgepoint.prebuild.ActionPrebuilder.accept_ParameterListNode', [('
            modifies=NESTED + ['self.symtab.version'],
            loops={0: Loop(inv={'walks-the-children-backwards': 'len(_seq) == len(node.children) and all(_seq[j] is node.children[len(node.children) - 1 - j] for j in range(0, len(_seq)))',
                                'chained-so-far': 'pchain_so_far(node.children, _i)',
-                               'previous': 'same(prev_v_par, None if _i == 0 else node.children[len(node.children) - _i].built)',
+                               'previous': 'same(_c0, None if _i == 0 else node.children[len(node.children) - _i].built)',
                                'scopes': 'self.symtab.scopes == old(self.symtab.scopes)'})})
 
 # ---- attribute / member values, index access, statements around one value
